@@ -713,7 +713,7 @@ func c08Line(w *bufio.Writer, workers, count, bytes, tmode, adders int, seed uin
 func genC08(w *bufio.Writer, rng *hx.Rng, tier string) {
 	nsmall, nrand := 200, 1600
 	if tier == "thorough" {
-		nsmall, nrand = 2000, 24000
+		nsmall, nrand = 2000, 12000
 	}
 	mkEvs := func(n int, mix int) []evSpec {
 		evs := make([]evSpec, n)
